@@ -38,9 +38,9 @@ ASSUMPTIONS = [
 ]
 REQUIRED_CLAUSES = ["started-only-after-all-hosts", "stopped-only-after-all-hosts", "stop-exactly-once", "stop-sequence", "cleanup-unless-preserve",
                     "start-failure-reported", "daemon-departure-reported", "external-untouched", "no-stall", "stopped-after-failure",
-                    "launcher:terminate-exactly-once", "launcher:kill-only-after-timeout", "launcher:system-metrics-stored-once", "launcher:stopped-list", "launcher:flush-and-cleanup"]
+                    "launcher:terminate-exactly-once", "launcher:kill-only-after-timeout", "launcher:system-metrics-stored-once", "launcher:stopped-list", "launcher:flush-and-cleanup", "launcher:dead-node-fails-start"]
 REQUIRED_FEATURES = {"fault:none": 10, "fault:start-fails": 5, "fault:stop-fails": 5, "fault:leaves-before-use": 3, "fault:leaves-after-start": 3, "fault:external": 3,
-                     "remote-joins-late": 5, "several-nodes-per-host": 5, "local-and-remote": 5, "non-target-convention-members": 10, "launcher": 20, "launcher:dead-node-among-living": 5}
+                     "remote-joins-late": 5, "several-nodes-per-host": 5, "local-and-remote": 5, "non-target-convention-members": 10, "launcher": 20, "launcher:dead-node-among-living": 5, "launcher-start": 10}
 BUDGET = {"quick": {"cases": 60000, "seconds": 30}, "thorough": {"cases": 1500000, "seconds": 600}}
 
 
@@ -486,6 +486,9 @@ def run_shard(ctx):
     for j in range(ctx.shard, len(combos), ctx.nshards):
         c12_launcher.launcher_case(ctx, None, explicit=combos[j])
     ctx.exhaustive["launcher: all sequences of <= 3 node process states"] = True
+    starts = [list(c) for n in (1, 2, 3) for c in _it.product(c12_launcher.START_STATES, repeat=n)]
+    for j in range(ctx.shard, len(starts), ctx.nshards):
+        c12_launcher.start_case(ctx, None, explicit=starts[j])
     i = 0
     while ctx.more():
         if i % 50 == 25:
@@ -507,7 +510,9 @@ def classify(v):
 
 
 def replay(ctx, rec):
-    if rec["witness"].get("workload") == "launcher":
+    if rec["witness"].get("workload") == "launcher-start":
+        c12_launcher.start_case(ctx, None, explicit=rec["witness"]["states"])
+    elif rec["witness"].get("workload") == "launcher":
         c12_launcher.launcher_case(ctx, None, explicit=rec["witness"]["states"])
     else:
         one_case(ctx, rec["witness"]["case"])
